@@ -2,7 +2,10 @@
 use crate::ir::*;
 use crate::record::log;
 use shuttle::lazy_static::Lazy;
-use shuttle::sync::atomic::{AtomicU64, Ordering};
+use shuttle::sync::atomic::{
+    AtomicBool, AtomicI16, AtomicI32, AtomicI64, AtomicI8, AtomicIsize, AtomicU16, AtomicU32, AtomicU64, AtomicU8,
+    AtomicUsize, Ordering,
+};
 use shuttle::sync::mpsc::{channel, sync_channel, Receiver, Sender, SyncSender, TryRecvError, TrySendError};
 use shuttle::sync::{Barrier, Condvar, Mutex, MutexGuard, Once, RwLock, RwLockReadGuard, RwLockWriteGuard};
 use shuttle::thread::{self, JoinHandle, LocalKey, Scope, Thread};
@@ -16,7 +19,7 @@ unsafe impl<T> Send for Ss<T> {}
 unsafe impl<T> Sync for Ss<T> {}
 
 pub enum Obj {
-    Atomic(AtomicU64),
+    Atomic(Atom),
     Mutex(Mutex<u64>),
     RwLock(RwLock<u64>),
     Sem(BatchSemaphore),
@@ -29,6 +32,103 @@ pub enum Obj {
     Tls(usize),
     /// index into the pool of `Lazy` statics
     Lazy(usize),
+}
+
+
+/// an atomic of any of the integer widths (or bool); operands are `u64` literals cast with `as`
+pub enum Atom {
+    U8(AtomicU8),
+    U16(AtomicU16),
+    U32(AtomicU32),
+    U64(AtomicU64),
+    Usize(AtomicUsize),
+    I8(AtomicI8),
+    I16(AtomicI16),
+    I32(AtomicI32),
+    I64(AtomicI64),
+    Isize(AtomicIsize),
+    Bool(AtomicBool),
+}
+
+fn atom_new(ty: &str, init: u64) -> Atom {
+    match ty {
+        "u8" => Atom::U8(AtomicU8::new(init as u8)),
+        "u16" => Atom::U16(AtomicU16::new(init as u16)),
+        "u32" => Atom::U32(AtomicU32::new(init as u32)),
+        "usize" => Atom::Usize(AtomicUsize::new(init as usize)),
+        "i8" => Atom::I8(AtomicI8::new(init as i8)),
+        "i16" => Atom::I16(AtomicI16::new(init as i16)),
+        "i32" => Atom::I32(AtomicI32::new(init as i32)),
+        "i64" => Atom::I64(AtomicI64::new(init as i64)),
+        "isize" => Atom::Isize(AtomicIsize::new(init as isize)),
+        "bool" => Atom::Bool(AtomicBool::new(init & 1 == 1)),
+        _ => Atom::U64(AtomicU64::new(init)),
+    }
+}
+
+fn atom_op(a: &Atom, name: &str, v: u64, w: u64) -> String {
+    let sc = Ordering::SeqCst;
+    macro_rules! int_ops {
+        ($a:expr, $t:ty) => {{
+            let a = $a;
+            let v = v as $t;
+            let w = w as $t;
+            match name {
+                "aload" => format!("v:{}", a.load(sc)),
+                "astore" => {
+                    a.store(v, sc);
+                    "ok".into()
+                }
+                "aswap" => format!("v:{}", a.swap(v, sc)),
+                "aadd" => format!("v:{}", a.fetch_add(v, sc)),
+                "asub" => format!("v:{}", a.fetch_sub(v, sc)),
+                "aand" => format!("v:{}", a.fetch_and(v, sc)),
+                "aor" => format!("v:{}", a.fetch_or(v, sc)),
+                "axor" => format!("v:{}", a.fetch_xor(v, sc)),
+                "anand" => format!("v:{}", a.fetch_nand(v, sc)),
+                "amax" => format!("v:{}", a.fetch_max(v, sc)),
+                "amin" => format!("v:{}", a.fetch_min(v, sc)),
+                "acas" => match a.compare_exchange(v, w, sc, sc) {
+                    Ok(x) => format!("ok:{}", x),
+                    Err(x) => format!("err:{}", x),
+                },
+                _ => unreachable!(),
+            }
+        }};
+    }
+    match a {
+        Atom::U8(a) => int_ops!(a, u8),
+        Atom::U16(a) => int_ops!(a, u16),
+        Atom::U32(a) => int_ops!(a, u32),
+        Atom::U64(a) => int_ops!(a, u64),
+        Atom::Usize(a) => int_ops!(a, usize),
+        Atom::I8(a) => int_ops!(a, i8),
+        Atom::I16(a) => int_ops!(a, i16),
+        Atom::I32(a) => int_ops!(a, i32),
+        Atom::I64(a) => int_ops!(a, i64),
+        Atom::Isize(a) => int_ops!(a, isize),
+        Atom::Bool(a) => {
+            let v = v & 1 == 1;
+            let w = w & 1 == 1;
+            match name {
+                "aload" => format!("v:{}", a.load(sc)),
+                "astore" => {
+                    a.store(v, sc);
+                    "ok".into()
+                }
+                "aswap" => format!("v:{}", a.swap(v, sc)),
+                "aand" => format!("v:{}", a.fetch_and(v, sc)),
+                "aor" => format!("v:{}", a.fetch_or(v, sc)),
+                "axor" => format!("v:{}", a.fetch_xor(v, sc)),
+                "anand" => format!("v:{}", a.fetch_nand(v, sc)),
+                "acas" => match a.compare_exchange(v, w, sc, sc) {
+                    Ok(x) => format!("ok:{}", x),
+                    Err(x) => format!("err:{}", x),
+                },
+                other => panic!("vh: {other} is not defined on AtomicBool"),
+            }
+        }
+    }
 }
 
 pub struct Ctx {
@@ -253,7 +353,10 @@ pub fn make_ctx(prog: Arc<Program>) -> (Arc<Ss<Ctx>>, Handles) {
     for (i, o) in prog.objs.iter().enumerate() {
         let a0 = o.args.first().map(|s| s.as_str()).unwrap_or("");
         objs.push(match o.kind.as_str() {
-            "atomic" => Obj::Atomic(AtomicU64::new(a0.parse().unwrap_or(0))),
+            "atomic" => Obj::Atomic(atom_new(
+                o.args.get(1).map(|s| s.as_str()).unwrap_or("u64"),
+                a0.parse().unwrap_or(0),
+            )),
             "mutex" => Obj::Mutex(Mutex::new(a0.parse().unwrap_or(0))),
             "rwlock" => Obj::RwLock(RwLock::new(a0.parse().unwrap_or(0))),
             "sem" => {
@@ -508,7 +611,7 @@ fn exec_op<'scope, 'env>(
         }
         "panic" => panic!("vp-panic"),
         "obs" => "ok".into(),
-        // ---- atomics (u64)
+        // ---- atomics
         "aload" | "astore" | "aswap" | "aadd" | "asub" | "aand" | "aor" | "axor" | "anand" | "amax" | "amin"
         | "acas" => {
             let (_, o) = obj(c, op.arg(0));
@@ -516,29 +619,7 @@ fn exec_op<'scope, 'env>(
                 Obj::Atomic(a) => a,
                 _ => panic!("vh: not an atomic"),
             };
-            let v = op.num(1);
-            let sc = Ordering::SeqCst;
-            match op.name.as_str() {
-                "aload" => format!("v:{}", a.load(sc)),
-                "astore" => {
-                    a.store(v, sc);
-                    "ok".into()
-                }
-                "aswap" => format!("v:{}", a.swap(v, sc)),
-                "aadd" => format!("v:{}", a.fetch_add(v, sc)),
-                "asub" => format!("v:{}", a.fetch_sub(v, sc)),
-                "aand" => format!("v:{}", a.fetch_and(v, sc)),
-                "aor" => format!("v:{}", a.fetch_or(v, sc)),
-                "axor" => format!("v:{}", a.fetch_xor(v, sc)),
-                "anand" => format!("v:{}", a.fetch_nand(v, sc)),
-                "amax" => format!("v:{}", a.fetch_max(v, sc)),
-                "amin" => format!("v:{}", a.fetch_min(v, sc)),
-                "acas" => match a.compare_exchange(v, op.num(2), sc, sc) {
-                    Ok(x) => format!("ok:{}", x),
-                    Err(x) => format!("err:{}", x),
-                },
-                _ => unreachable!(),
-            }
+            atom_op(a, op.name.as_str(), op.num(1), op.num(2))
         }
         // ---- mutex
         "lock" | "trylock" => {
@@ -785,6 +866,38 @@ fn exec_op<'scope, 'env>(
                         _ => unreachable!(),
                     };
                     match cv.wait(g) {
+                        Ok(g) => {
+                            let v = *g;
+                            st.guards.push(Guard::M(mi, g));
+                            format!("v:{}", v)
+                        }
+                        Err(p) => {
+                            let g = p.into_inner();
+                            let v = *g;
+                            st.guards.push(Guard::M(mi, g));
+                            format!("poisoned:{}", v)
+                        }
+                    }
+                }
+            }
+        }
+        "wait_while" => {
+            let (_, o) = obj(c, op.arg(0));
+            let cv = match o {
+                Obj::Condvar(cv) => cv,
+                _ => panic!("vh: not a condvar"),
+            };
+            let (mi, _) = obj(c, op.arg(1));
+            let stop = op.num(2);
+            let pos = st.guards.iter().rposition(|g| matches!(g, Guard::M(j, _) if *j == mi));
+            match pos {
+                None => "noguard".into(),
+                Some(p) => {
+                    let g = match st.guards.remove(p) {
+                        Guard::M(_, g) => g,
+                        _ => unreachable!(),
+                    };
+                    match cv.wait_while(g, |x| *x == stop) {
                         Ok(g) => {
                             let v = *g;
                             st.guards.push(Guard::M(mi, g));
